@@ -441,17 +441,21 @@ def rule_M3(ctx) -> None:
     # parse_fields: slices of the buffer must be bounded by a test of the end index against len(value)
     pf = mod.func("parse_fields")
     sl = slice_sites(pf)
-    ctx.floor("M3", "payload slices in parse_fields", len(sl), 3)
+    ctx.floor("M3", "payload slices in parse_fields", len(sl), 1)
     g = CFG(pf, implicit_exc=False)
     bufname = pf.args.args[0].arg
+    # locals that hold len(buffer) (hoisted out of the loop)
+    len_names = {a.targets[0].id for a in ast.walk(pf) if isinstance(a, ast.Assign) and len(a.targets) == 1 and isinstance(a.targets[0], ast.Name)
+                 and ast.unparse(a.value) == f"len({bufname})" and sum(1 for x in ast.walk(pf) if isinstance(x, ast.Name) and x.id == a.targets[0].id and isinstance(x.ctx, ast.Store)) == 1}
     # accepted idiom: a test comparing the position with len(buffer) whose failing branch raises, between the slices and the yield
     guard_tests = []
     for nd in g.nodes:
         if nd.kind == "test" and isinstance(nd.stmt, ast.If) and any(isinstance(b, ast.Raise) for b in nd.stmt.body):
-            t = simplify(from_ast(nd.stmt.test))
+            t = simplify(from_ast(nd.stmt.test, lambda nm: ("call", N("len"), (N(bufname),), ()) if nm in len_names else None))
             if contains(t, ("call", N("len"), (N(bufname),), ())) and t[0] == "op" and (t[1] == "<" or (t[1] == "not" and t[2][0] == "op" and t[2][1] in ("<", "=="))):
                 guard_tests.append(nd.id)
     yields = [nd for nd in g.nodes if nd.stmt is not None and nd.kind == "stmt" and any(isinstance(x, ast.Yield) for x in own_nodes(nd.stmt))]
+    loop_heads = [nd for nd in g.nodes if nd.kind == "loop"]
     for st, sub in sl:
         if ast.unparse(sub.value) != bufname:
             continue
@@ -462,6 +466,23 @@ def rule_M3(ctx) -> None:
         for sn in g.nodes_for(st):
             if yields and guard_tests and all(g.must_pass(sn.id, y.id, set(guard_tests), labels=normal_edge) for y in yields):
                 ok = True
+            # the end position may be tested before the slice is taken: then the test lies between the head of the iteration
+            # and the slice, and it is the slice's own upper bound that it compares with the buffer length
+            if not ok and guard_tests and loop_heads and isinstance(sub.slice.upper, ast.Name):
+                ub = sub.slice.upper.id
+                mine = {gid for gid in guard_tests if any(isinstance(x, ast.Name) and x.id == ub for x in ast.walk(g.nodes[gid].stmt.test))}
+                reassigned_between = False
+                if mine and all(g.must_pass(h.id, sn.id, mine, labels=normal_edge) for h in loop_heads):
+                    # the bound must not be assigned again between the test and the slice
+                    for gid in mine:
+                        region = g.reachable([t_ for t_, lab in g.succ[gid] if lab == "false"], avoid={sn.id}, labels=normal_edge)
+                        for i_ in region:
+                            nd_ = g.nodes[i_]
+                            if nd_.stmt is not None and nd_.kind == "stmt" and any(isinstance(x, ast.Name) and x.id == ub and isinstance(x.ctx, ast.Store) for x in own_nodes(nd_.stmt)) \
+                                    and sn.id in g.reachable([i_], labels=normal_edge):
+                                reassigned_between = True
+                    if not reassigned_between:
+                        ok = True
         if ok:
             ctx.proved("M3", name, mod.loc(st))
         else:
